@@ -397,23 +397,35 @@ def min_pow2(x, n_frac=0):
 def binary_invert(x, n_word=None):
     if n_word is None:
         n_word = bits_len(x)
-    return int((1 << n_word) - 1 - x)
+    return ((1 << n_word) - 1 - int(x)) % (1 << n_word)     # (the n_word-bit pattern, with python integers: a 64-bit x would overflow at n_word = 63)
 
-@array_support
+def elementwise_support(func):
+    # the second operand may be an array too: the operands are combined element by element (broadcast against each other)
+    def combiner(x, y, **kwargs):
+        if np.ndim(y) > 0:
+            if isinstance(y, (list, tuple)):
+                y = np.array(y, dtype=object)       # (python integers as they are: numpy would make floats of 2**64 - 1 beside a small one)
+            xa, ya = np.broadcast_arrays(np.asarray(x), np.asarray(y))
+            vals = [func(u, v, **kwargs) for u, v in zip(xa.flatten(), ya.flatten())]
+            return np.array(vals, dtype=object if (xa.dtype == object or ya.dtype == object) else None).reshape(xa.shape)
+        return array_support(func)(x, y, **kwargs)
+    return combiner
+
+@elementwise_support
 def binary_and(x, y, n_word=None):
     xm = int(x) % (1 << n_word)
     ym = int(y) % (1 << n_word)
     z = xm & ym
     return z
 
-@array_support
+@elementwise_support
 def binary_or(x, y, n_word=None):
     xm = int(x) % (1 << n_word)
     ym = int(y) % (1 << n_word)
     z = xm | ym
     return z
 
-@array_support
+@elementwise_support
 def binary_xor(x, y, n_word=None):
     xm = int(x) % (1 << n_word)
     ym = int(y) % (1 << n_word)
